@@ -1,0 +1,332 @@
+//go:build verif
+
+// Contracts for the deductive verification in /verif (govc): TLS peer authentication gates
+// (C27) and panic-freedom of the peer-input processing functions (C32). Comment-only file.
+
+package tls
+
+// ---------------------------------------------------------------- conn.go: small helpers
+
+//@ func (*Conn).handshakeComplete
+//@   requires c != nil
+//@   ensures  result <==> c.handshakeStatus == 1
+//@   modifies nothing
+//@   terminates
+
+//@ func (*Conn).connectionStateLocked
+//@   requires c != nil && c.config != nil
+//@   modifies nothing
+//@   terminates
+
+// ---------------------------------------------------------------- auth.go
+
+// "legacyTypeAndHashFromPublicKey returns the fixed signature type and crypto.Hash for a given
+// public key used with TLS 1.0 and 1.1": RSA keys sign MD5+SHA1 with PKCS#1 v1.5, ECDSA keys
+// sign SHA-1; every other key is an error.
+//@ pred ltRSA(pub) = typeis(pub, *zcrypto_rsa.PublicKey)
+//@ pred ltEC(pub) = typeis(pub, *crypto_ecdsa.PublicKey) || typeis(pub, *zcrypto_x509.AugmentedECDSA)
+//@ func legacyTypeAndHashFromPublicKey
+//@   ensures  ltRSA(pub) ==> sigType == signaturePKCS1v15 && hash == crypto.MD5SHA1 && err == nil
+//@   ensures  ltEC(pub) ==> sigType == signatureECDSA && hash == crypto.SHA1 && err == nil
+//@   ensures  !ltRSA(pub) && !ltEC(pub) ==> err != nil && sigType == 0 && hash == 0
+//@   modifies nothing
+//@   terminates
+
+// "verifyHandshakeSignature verifies a signature against pre-hashed (if required) handshake
+// contents." C32: no panic for any signature bytes and any well-formed key (keyOK: what
+// x509.parsePublicKey returns); C27: an unknown signature type or a key of the wrong kind is
+// an error. The event "returned nil" is recorded in ghost.hsSigOK by the assumed refinement in
+// /verif/extern/tlsauth.contracts.
+// (edStdOK repeats edKeyOK of x509sig.contracts for the type name crypto/ed25519.PublicKey, of
+// which golang.org/x/crypto/ed25519.PublicKey is an alias - govc gives aliases separate type ids)
+//@ pred edStdOK(pk) = typeis(pk, crypto_ed25519.PublicKey) ==> len(unboxed(pk, crypto_ed25519.PublicKey)) == 32
+//@ pred hsKeyOK(pk) = keyOK(pk) && edStdOK(pk)
+// common.go: "directSigning is a standard Hash value that signals that no pre-hashing should
+// be performed" - a package variable with the initial value 0, never assigned.
+//@ global directSigning == 0
+//@ pred hsRSAType(t) = t == signaturePKCS1v15 || t == signatureRSAPSS
+//@ func verifyHandshakeSignature
+//@   requires hsKeyOK(pubkey) && hashFunc < 20 && (sigType == signatureRSAPSS ==> hashFunc >= 1)
+//@   ensures  [unknown] sigType != signatureECDSA && sigType != signatureEd25519 && !hsRSAType(sigType) ==> result != nil
+//@   ensures  [keytype] result == nil ==> (sigType == signatureECDSA ==> ltEC(pubkey)) && (sigType == signatureEd25519 ==> typeis(pubkey, crypto_ed25519.PublicKey)) && (hsRSAType(sigType) ==> ltRSA(pubkey))
+//@   modifies ghost.bigEq, ghost.bigStr
+//@   terminates
+
+// ---------------------------------------------------------------- key_agreement.go: digests
+
+//@ func sha1Hash
+//@   loop 1 invariant 0 <= it && hsha1 != nil
+//@   ensures  fresh(result) && len(result) >= 1
+//@   modifies nothing
+//@   terminates
+
+//@ func md5SHA1Hash
+//@   loop 1 invariant 0 <= it && hmd5 != nil && len(md5sha1) == 36 && fresh(md5sha1)
+//@   ensures  fresh(result) && len(result) == 36
+//@   modifies nothing
+//@   terminates
+
+// "hashForServerKeyExchange hashes the given slices and returns their digest using the given
+// hash function (for >= TLS 1.2) or using a default based on the sigType (for earlier TLS
+// versions). For Ed25519 signatures, which don't do pre-hashing, it returns the concatenation
+// of the slices." Digest contents are uninterpreted; crypto.Hash.New panics for an unknown
+// hash, hence the precondition.
+//@ func hashForServerKeyExchange
+//@   requires sigType != signatureEd25519 && version >= VersionTLS12 ==> 1 <= hashFunc && hashFunc < 20
+//@   loop 1 invariant 0 <= it
+//@   loop 2 invariant 0 <= it && h != nil
+//@   modifies nothing
+//@   terminates
+
+// ---------------------------------------------------------------- key_agreement.go: ServerKeyExchange (client side)
+
+// C27 "the server proves possession of the leaf key": processServerKeyExchange returns nil only
+// if verifyHandshakeSignature returned nil ([sigok]) for the key of the server certificate, the
+// signature block of the message and the digest of client random || server random || received
+// ServerECDHParams (the three `at call` assertions). C32: no panic for any skx.key.
+//@ func (*ecdheKeyAgreement).processServerKeyExchange
+//@   requires ka != nil && config != nil && clientHello != nil && serverHello != nil && cert != nil && skx != nil
+//@   requires config.Rand != nil || rand.Reader != nil
+//@   requires hsKeyOK(cert.PublicKey)
+//@   requires typeis(ka.auth, *signedKeyAgreement) ==> authSigned(ka.auth) != nil && sep(authSigned(ka.auth), ka) && sep(authSigned(ka.auth), skx)
+//@   requires sep(ka, skx) && sep(ka, config) && sep(ka, clientHello) && sep(ka, serverHello) && sep(ka, cert) && sep(skx, config) && sep(skx, clientHello) && sep(skx, serverHello) && sep(skx, cert) && sep(skx.key, ka)
+//@   at call hashForServerKeyExchange assert arg0 == sigType && arg1 == sigHash && arg2 == ka.version && len(arg3) == 3 && same(arg3[0], clientHello.random) && same(arg3[1], serverHello.random) && same(arg3[2], skx.key[:4+skxPub(skx)])
+//@   at call verifyHandshakeSignature assert arg0 == sigType && same(arg1, cert.PublicKey) && arg2 == sigHash && same(arg3, signed) && publicLen == skxPub(skx) && same(arg4, skx.key[4+publicLen+ite(ka.version >= VersionTLS12, 4, 2):])
+//@   ensures  [sigok] result == nil ==> ghost.hsSigOK(cert.PublicKey, skx.digest)
+//@   ensures  [verr] result == nil ==> ka.verifyError == nil
+//@   ensures  [params] result == nil ==> ka.serverParams != nil && ka.params != nil && ka.ckx != nil
+// (C28, tlslog area - see the comment in zz_verif_contracts_tlslog.go; [sigalg] guards the repair b2fe017 of finding D3)
+//@   ensures  [raw] result == nil && typeis(ka.auth, *signedKeyAgreement) ==> authSigned(ka.auth).valid && samebase(authSigned(ka.auth).raw, old(skx.key))
+//@   ensures  [sigalg] result == nil && ka.version >= VersionTLS12 && typeis(ka.auth, *signedKeyAgreement) ==> authSigned(ka.auth).sh.Hash == old(skx.key[4+skxPub(skx)]) && authSigned(ka.auth).sh.Signature == old(skx.key[5+skxPub(skx)])
+//@   modifies all
+
+// ---------------------------------------------------------------- handshake_client.go: server certificate
+
+// C27 "a client completes a handshake only if the server's chain verifies to the configured
+// roots for the configured server name": verifyServerCertificate returns nil with verification
+// enabled only after certs[0].ValidateWithStupidDetail returned a nil error ([chain]; the event
+// ghost.chainOK is set by nothing else) for Roots = config.RootCAs, DNSName = config.ServerName,
+// a new intermediates pool holding the other certificates of the message. C32: no panic for any
+// non-empty certificate list (both callers reject an empty list before the call; the log entry
+// has been shaped by certificateMsg.MakeLog on the same message - vscLog).
+//@ pred vscLog(c, n) = c.handshakeLog != nil && c.handshakeLog.ServerCertificates != nil && len(c.handshakeLog.ServerCertificates.Chain) >= n - 1 && sep(c.handshakeLog.ServerCertificates.Chain, c.handshakeLog.ServerCertificates)
+//@ func (*Conn).verifyServerCertificate
+//@   requires c != nil && c.config != nil && len(certificates) > 0
+//@   requires vscLog(c, len(certificates))
+//@   assume_nopanic sendAlert
+//@   assume_pure funcvalue
+//@   loop 1 invariant 0 <= it && it <= len(certificates) && len(certs) == len(certificates) && fresh(certs)
+//@   loop 1 invariant forall(k, 0, it, certs[k] != nil && allocated(certs[k]))
+//@   loop 2 invariant 0 <= it && opts.Intermediates != nil && fresh(opts.Intermediates)
+//@   loop 2 invariant forall(k, 0, len(certs), certs[k] != nil && allocated(certs[k]))
+//@   loop 2 invariant opts.Roots == c.config.RootCAs && opts.DNSName == c.config.ServerName && c.config == old(c.config) && vscLog(c, len(certificates))
+//@   at call ValidateWithStupidDetail assert arg0 == certs[0] && arg1.Roots == c.config.RootCAs && arg1.DNSName == c.config.ServerName && fresh(arg1.Intermediates)
+//@   ensures  [chain] result == nil && !old(c.config.InsecureSkipVerify) ==> ghost.chainOK(c.peerCertificates[0], old(c.config.RootCAs), old(c.config.ServerName))
+//@   modifies all
+
+// ---------------------------------------------------------------- common.go: TLS 1.2 SignatureAndHashAlgorithm lists
+
+// The hash identifiers of RFC 5246 7.4.1.4.1 that the code can map to a hash function
+// (supportedHashFunc): md5(1) .. sha512(6). The built-in lists only contain those.
+//@ pred hashIdOK(h) = 1 <= h && h <= 6
+//@ global forallv(k, uint8, has(supportedHashFunc, k) <==> hashIdOK(k))
+//@ global supportedHashFunc[1] == crypto.MD5 && supportedHashFunc[2] == crypto.SHA1 && supportedHashFunc[3] == crypto.SHA224 && supportedHashFunc[4] == crypto.SHA256 && supportedHashFunc[5] == crypto.SHA384 && supportedHashFunc[6] == crypto.SHA512
+//@ global forall(i, 0, len(supportedSKXSignatureAlgorithms), hashIdOK(supportedSKXSignatureAlgorithms[i].Hash))
+//@ global forall(i, 0, len(defaultSKXSignatureAlgorithms), hashIdOK(defaultSKXSignatureAlgorithms[i].Hash))
+// A configured list (Config.SignatureAndHashes, "the signature and hash algorithms to be accepted
+// by a server, or sent by a client") must stay within those identifiers: for any other value
+// the client would look up no hash function and crypto.Hash(0).New() panics (see notes, R1).
+//@ pred cfgHashesOK(c) = c.SignatureAndHashes != nil ==> forall(i, 0, len(c.SignatureAndHashes), hashIdOK(c.SignatureAndHashes[i].Hash))
+
+//@ func (*Config).signatureAndHashesForClient
+//@   requires c != nil && cfgHashesOK(c)
+//@   ensures  forall(i, 0, len(result), hashIdOK(result[i].Hash))
+//@   modifies nothing
+//@   terminates
+
+//@ func isSupportedSignatureAndHash
+//@   loop 1 invariant 0 <= it && forall(k, 0, it, !(sigHashes[k].Signature == sigHash.Signature && sigHashes[k].Hash == sigHash.Hash))
+//@   ensures  result <==> exists(k, 0, len(sigHashes), sigHashes[k].Signature == sigHash.Signature && sigHashes[k].Hash == sigHash.Hash)
+//@   modifies nothing
+//@   terminates
+
+// ---------------------------------------------------------------- key_agreement.go: signed DHE parameters (client side)
+
+// A crypto/dsa key object with all components (what crypto/dsa.Verify dereferences). Keys
+// parsed by zcrypto's x509 are *zcrypto/dsa.PublicKey and never have this type (see notes, F1).
+//@ pred dsaStdOK(pk) = typeis(pk, *crypto_dsa.PublicKey) ==> unboxed(pk, *crypto_dsa.PublicKey) != nil && unboxed(pk, *crypto_dsa.PublicKey).P != nil && unboxed(pk, *crypto_dsa.PublicKey).Q != nil && unboxed(pk, *crypto_dsa.PublicKey).G != nil && unboxed(pk, *crypto_dsa.PublicKey).Y != nil
+// What the primitives behind verifyParameters dereference (implied by keyOK for parsed keys):
+// rsa.VerifyPKCS1v15 rejects incomplete keys itself; ecdsa.Verify needs the curve and the point.
+//@ pred vpAug(pk) = unboxed(pk, *zcrypto_x509.AugmentedECDSA)
+//@ pred vpKeyOK(pk) = (ltRSA(pk) ==> unboxed(pk, *zcrypto_rsa.PublicKey) != nil) && (typeis(pk, *zcrypto_x509.AugmentedECDSA) ==> vpAug(pk) != nil && vpAug(pk).Pub != nil && vpAug(pk).Pub.Curve != nil && vpAug(pk).Pub.X != nil && vpAug(pk).Pub.Y != nil) && dsaStdOK(pk)
+// (objects of different Go types cannot overlap; the untyped memory model needs to be told)
+//@ pred vpKeySep(o, pk) = (typeis(pk, *zcrypto_x509.AugmentedECDSA) ==> sep(o, vpAug(pk)) && sep(o, vpAug(pk).Pub)) && (typeis(pk, *crypto_dsa.PublicKey) ==> sep(o, unboxed(pk, *crypto_dsa.PublicKey)))
+//@ pred vpArgsOK(config, clientHello, serverHello, cert) = config != nil && cfgHashesOK(config) && clientHello != nil && serverHello != nil && cert != nil && vpKeyOK(cert.PublicKey)
+
+// C27 (DHE suites, RFC 5246 7.4.3: the signature covers client random, server random and the
+// ServerDHParams): verifyParameters returns a nil error only on the path through one of the
+// verification primitives, which is called with the key of the certificate, the digest of
+// randoms || params, and the signature bytes of the message (`at call` assertions); in TLS 1.2
+// the signature algorithm on the wire must be the one of the cipher suite ([sigalg12]) and the
+// hash one the client offered. C32: no panic for any signature block. [dss]: see notes F1.
+// ka.raw is the signature proper: what follows the (TLS 1.2: algorithm pair and) length prefix
+//@ pred vpRaw(ka, sig) = len(ka.raw) == len(sig) - ite(ka.version >= VersionTLS12, 4, 2) && samebase(ka.raw, sig) && offset(ka.raw) == offset(sig) + ite(ka.version >= VersionTLS12, 4, 2)
+//@ func (*signedKeyAgreement).verifyParameters
+//@   requires ka != nil && vpArgsOK(config, clientHello, serverHello, cert) && sep(ka, sig) && sep(ka, params) && sep(ka, cert) && vpKeySep(ka, cert.PublicKey)
+//@   at call hashForServerKeyExchange assert arg0 == ka.sigType && arg2 == ka.version && len(arg3) == 3 && same(arg3[0], clientHello.random) && same(arg3[1], serverHello.random) && same(arg3[2], params)
+//@   at call VerifyPKCS1v15#1 assert arg0 == unboxed(cert.PublicKey, *zcrypto_rsa.PublicKey) && same(arg2, digest) && same(arg3, ka.raw) && vpRaw(ka, sig)
+//@   at call crypto/ecdsa.Verify assert arg0 == unboxed(cert.PublicKey, *zcrypto_x509.AugmentedECDSA).Pub && same(arg1, digest)
+//@   at call crypto/dsa.Verify assert arg0 == unboxed(cert.PublicKey, *crypto_dsa.PublicKey) && same(arg1, digest)
+//@   ensures  [short] len(sig) < 2 ==> result1 != nil
+//@   ensures  [valid] result1 == nil ==> ka.valid && vpRaw(ka, sig)
+//@   ensures  [sigalg12] result1 == nil && ka.version >= VersionTLS12 ==> old(sig[1]) == ka.sigType && hashIdOK(old(sig[0]))
+//@   ensures  [keytype] result1 == nil ==> (ka.sigType == signatureRSA && ltRSA(cert.PublicKey)) || (ka.sigType == signatureECDSA && typeis(cert.PublicKey, *zcrypto_x509.AugmentedECDSA)) || (ka.sigType == signatureDSA && typeis(cert.PublicKey, *crypto_dsa.PublicKey))
+//@   ensures  [dss] ka.sigType == signatureDSA && typeis(cert.PublicKey, *zcrypto_dsa.PublicKey) ==> result1 != nil
+//@   modifies ka.sh.Hash, ka.sh.Signature, ka.raw, ka.valid, ghost.bigEq, ghost.bigStr
+//@   terminates
+
+// C27/C32 for the DHE suites: the three length-prefixed integers are parsed without panic for
+// any skx.key; the rest of the message is handed to the authentication as the signature block
+// and everything before it as the signed parameters; with verification enabled the result is
+// the verification result ([gate]).
+//@ func (*dheKeyAgreement).processServerKeyExchange
+//@   requires ka != nil && skx != nil && vpArgsOK(config, clientHello, serverHello, cert)
+// (cipher_suites.go dheRSAKA/dheDSSKA: the authentication of a DHE key agreement is a new signedKeyAgreement)
+//@   requires typeis(ka.auth, *signedKeyAgreement) && authSigned(ka.auth) != nil && sep(authSigned(ka.auth), ka) && sep(authSigned(ka.auth), skx) && sep(authSigned(ka.auth), skx.key) && sep(authSigned(ka.auth), cert) && vpKeySep(authSigned(ka.auth), cert.PublicKey)
+//@   requires sep(ka, skx) && sep(ka, skx.key) && sep(ka, config) && sep(skx, config) && sep(ka, cert) && sep(skx, cert) && vpKeySep(ka, cert.PublicKey) && vpKeySep(skx, cert.PublicKey)
+// (cut points: the message is not written while the integers are built)
+//@   at call SetBytes#2 assert same(skx.key, old(skx.key))
+//@   at call SetBytes#3 assert same(skx.key, old(skx.key))
+//@   at call Set assert same(skx.key, old(skx.key))
+//@   at call Sign assert same(skx.key, old(skx.key))
+//@   at call Cmp assert same(skx.key, old(skx.key))
+//@   at call verifyParameters assert same(skx.key, old(skx.key)) && same(arg0, ka.auth) && arg1 == config && arg2 == clientHello && arg3 == serverHello && arg4 == cert && same(arg5, skx.key[:6+pLen+gLen+yLen]) && same(arg6, skx.key[6+pLen+gLen+yLen:])
+//@   ensures  [gate] result == nil && !config.InsecureSkipVerify ==> ka.verifyError == nil
+//@   ensures  [valid] result == nil && !config.InsecureSkipVerify ==> authSigned(ka.auth).valid
+//@   ensures  [ys] result == nil ==> ka.p != nil && ka.g != nil && ka.yTheirs != nil
+//@   modifies all
+//@   terminates
+
+// ---------------------------------------------------------------- key_agreement.go: ClientKeyExchange (server side, C32)
+
+//@ global errClientKeyExchange != nil
+// Preconditions from the call site (handshake_server.go doFullHandshake): the same key
+// agreement object has produced the ServerKeyExchange before (generateServerKeyExchange set
+// p and the non-negative secret xOurs / the ECDHE shares); ckx is the message just unmarshalled.
+//@ func (*dheKeyAgreement).processClientKeyExchange
+//@   requires ka != nil && ckx != nil && ka.p != nil && ka.xOurs != nil && !ka.xOurs.neg && sep(ka, ckx.ciphertext)
+//@   ensures  result1 != nil ==> result0 == nil
+//@   ensures  len(ckx.ciphertext) < 2 ==> result1 != nil
+//@   modifies ka.yClient, ghost.bigEq, ghost.bigStr
+//@   terminates
+
+//@ func (*ecdheKeyAgreement).processClientKeyExchange
+//@   requires ka != nil && ckx != nil && ka.params != nil && ka.serverParams != nil
+//@   ensures  result1 != nil ==> result0 == nil
+//@   ensures  len(ckx.ciphertext) == 0 ==> result1 != nil
+//@   modifies ka.params
+//@   terminates
+
+// RFC 5246 7.4.7.1: the encrypted premaster secret is a 2-byte length followed by exactly that
+// many bytes; anything else is rejected without touching the private key.
+//@ func (*rsaKeyAgreement).processClientKeyExchange
+//@   requires ckx != nil && cert != nil && config != nil && (config.Rand != nil || rand.Reader != nil)
+//@   at call Decrypt assert len(ckx.ciphertext) >= 2 && len(arg2) == int(ckx.ciphertext[0])<<8 | int(ckx.ciphertext[1]) && same(arg2, ckx.ciphertext[2:])
+//@   ensures  len(ckx.ciphertext) < 2 ==> result1 != nil
+//@   ensures  result1 != nil ==> result0 == nil
+//@   modifies nothing
+//@   terminates
+
+// ---------------------------------------------------------------- conn.go: record reader (C32)
+
+// bytes.Buffer (c.rawInput, c.hand) through its representation: the unread part is
+// buf[off:]; see the assumed contracts in /verif/extern/tlsauth.contracts.
+//@ pred bbOK(b) = 0 <= b.off && b.off <= len(b.buf)
+//@ pred bbLen(b) = len(b.buf) - b.off
+
+//@ func (*halfConn).setErrorLocked
+//@   requires hc != nil
+//@   ensures  err != nil ==> result != nil
+//@   modifies hc.err
+//@   terminates
+
+// "changeCipherSpec changes the encryption and MAC states to the ones previously passed to
+// prepareCipherSpec": an error is an alert (callers convert it with err.(Alert)).
+//@ func (*halfConn).changeCipherSpec
+//@   uses perreturn
+//@   requires hc != nil
+//@   loop 1 invariant 0 <= it && it <= 8 && forall(k, 0, it, rcSq(hc, k) == 0) && hc.cipher == old(hc.nextCipher) && hc.mac == old(hc.nextMac)
+//@   ensures  result != nil ==> typeis(result, Alert)
+//@   ensures  result == nil ==> hc.cipher == old(hc.nextCipher) && hc.mac == old(hc.nextMac) && rcSeqVal(hc) == 0
+//@   modifies hc.cipher, hc.mac, hc.nextCipher, hc.nextMac, hc.seq, hc.scratchBuf
+//@   terminates
+
+//@ func (*Conn).newRecordHeaderError
+//@   requires c != nil
+//@   modifies nothing
+//@   terminates
+
+// atLeastReader: "reads from R, stopping with EOF once at least N bytes have been read":
+// the count goes down by what the underlying reader reports.
+//@ func (*atLeastReader).Read
+//@   requires r != nil && r.R != nil
+//@   ensures  old(r.N) <= 0 ==> result0 == 0
+//@   ensures  old(r.N) > 0 ==> r.N == old(r.N) - int64(result0) && 0 <= result0 && result0 <= len(p)
+//@   modifies r.N, elems(p)
+
+// "readFromUntil reads from r into c.rawInput until c.rawInput contains at least n bytes or
+// else returns an error."
+//@ pred rdBuf(c) = bbOK(&c.rawInput) && sep(c.rawInput.buf, c)
+//@ func (*Conn).readFromUntil
+//@   uses perreturn
+//@   requires c != nil && r != nil && 0 <= n && n <= 1<<32 && rdBuf(c)
+//@   ensures  result == nil ==> bbLen(&c.rawInput) >= n
+//@   ensures  rdBuf(c)
+//@   modifies c.rawInput.buf, c.rawInput.off, c.rawInput.lastRead, elems(c.rawInput.buf, 0, cap(c.rawInput.buf))
+
+// The state a connection's reader is in between records: the raw input buffer owns its
+// storage, the read half-connection satisfies the preconditions of decrypt (record area:
+// a MAC for non-AEAD ciphers; the 64-bit sequence number is not about to wrap - RFC 5246 6.1
+// "sequence numbers do not wrap", the code panics deliberately if they would), and the retry
+// counter is in range.
+//@ pred rdSeqRoom(c) = rcSeqVal(&c.in) <= 0xffffffffffffff00 + uint64(c.retryCount)
+//@ pred rdIn(c) = (c.in.cipher != nil && !rcAEAD(&c.in) ==> c.in.mac != nil) && (rcAEAD(&c.in) ==> c.in.mac == nil)
+//@ pred rdBase(c) = c != nil && c.conn != nil && rdBuf(c) && bbOK(&c.hand) && rdIn(c) && 0 <= c.retryCount && c.retryCount <= maxUselessRecords
+//@ pred rdState(c) = rdBase(c) && rdSeqRoom(c)
+
+// C32 "never panics": for ANY bytes the peer sends - any 5-byte header, any length field, any
+// body - readRecordOrCCS returns normally. The body is requested only after the length field
+// passed the bound (at call readFromUntil#2), so a peer cannot make the client buffer more than
+// one maximal record; the record handed to decrypt has exactly the announced length.
+// (maypanic: decrypt keeps two deliberate panics - sequence number wrap-around, excluded by
+// rdSeqRoom, and "unknown cipher type", an internal error - which its contract does not exclude)
+//@ func (*Conn).readRecordOrCCS
+//@   maypanic
+//@   requires rdState(c)
+//@   assume_nopanic sendAlert
+//@   at call readFromUntil#2 assert arg2 <= recordHeaderLen + maxCiphertext && arg2 >= recordHeaderLen && (c.vers == VersionTLS13 ==> arg2 <= recordHeaderLen + maxCiphertextTLS13)
+//@   at call decrypt assert len(arg1) == recordHeaderLen + n
+//@   modifies all
+
+//@ func (*Conn).retryReadRecord
+//@   maypanic
+//@   requires rdBase(c) && rcSeqVal(&c.in) <= 0xffffffffffffff00 + uint64(c.retryCount) + 1
+//@   assume_nopanic sendAlert
+//@   modifies all
+
+// C32, readHandshake: the 4-byte handshake header is examined only once c.hand holds 4 bytes;
+// the body is awaited only if the announced length is at most maxHandshake (the bound
+// is established before the second loop and asserted where the message is taken, at call Next), so a peer cannot make the endpoint buffer more than one maximal message; the
+// message handed to unmarshal is a private copy of exactly 4+n bytes.
+// readRecord (= readRecordOrCCS(false), proved panic-free above under rdState(c)) is taken as
+// an opaque, non-panicking call here: re-establishing rdState(c) in the two loops needs a
+// measure of the remaining record sequence numbers (see notes, unverified U2).
+//@ func (*Conn).readHandshake
+//@   uses perreturn
+//@   requires c != nil
+//@   assume_nopanic readRecord
+//@   assume_nopanic sendAlert
+//@   at call Next assert arg1 == 4 + n && 0 <= n && n <= maxHandshake && bbLen(&c.hand) >= 4 + n
+//@   at call unmarshal assert len(arg1) == 4 + n && fresh(arg1) && sep(unboxed(arg0, *byte), arg1)
+//@   ensures  result1 != nil ==> result0 == nil
+//@   modifies all
